@@ -46,4 +46,14 @@ def families(tier):
     add("ring2_three", R["ring2_three"], 0, 4, delay_sum_ge_steps=True)
     add("ring2_pull", R["ring2_pull"], 0, 4, delay_sum_ge_steps=True)
     add("ring3_split", R["ring3_split"], 0, 4, delay_sum_ge_steps=True)
+    # one scheduling step from an arbitrary state (no bound on the length of the run so far)
+    for name, topo in {**D, **({} if q else topos.BIG)}.items():
+        if name in ("ba_listed", "cba_listed", "a_p_b_rev"):
+            continue
+        fams.append(sched.step_family("C02", name, topo))
+    for name, topo in {**R, **({"ring3_chord_ok": topos.BIG_RINGS["ring3_chord_ok"]} if q else topos.BIG_RINGS)}.items():
+        if name == "ring2_dfix_listed_ba":
+            continue
+        fams.append(sched.step_family("C02", name, topo, delay_sum_ge_steps=True))
+    fams.append(sched.step_family("C02", "ring2_dpush", topos.RINGS_PUSH["ring2_dpush"]))
     return fams
